@@ -466,18 +466,30 @@ func c16GateExec(c c16GateCase, tol func(*kit.Viol) bool) (o kit.Outcome) {
 			continue
 		}
 
-		// must be accepted
+		// Valid key, valid credentials, implemented method, within the limit. The statement is
+		// one-directional ("act only on ..."): a refusal is tolerated when it is clean (no effect); it is
+		// reported under a weaker signature of its own, except for the empty file, which the upload
+		// handler does not take (counted).
 		if isRefusal {
-			sig := "gate:refused-valid-request"
-			if r.Up && w.file != nil && len(w.file) == 0 && rep.code >= 500 {
-				sig = "gate:empty-file-internal-error"
-			}
-			v := kit.V(sig, "%s: carries a valid key and valid credentials, an implemented method and fits the limit, but was answered %d %s",
-				what, rep.code, c16Short(rep.body))
 			if ve := noEffect("refused-request"); ve != nil {
 				o.Viol = ve
 				return o
 			}
+			if ve := leak(); ve != nil {
+				o.Viol = ve
+				return o
+			}
+			if r.Up && w.file != nil && len(w.file) == 0 {
+				cls[fmt.Sprintf("empty-file-refused:%d", rep.code)] = true
+				refused++
+				continue
+			}
+			sig := "gate:valid-upload-refused"
+			if !r.Up {
+				sig = "gate:valid-download-refused"
+			}
+			v := kit.V(sig, "%s: carries a valid key and valid credentials, an implemented method and fits the limit, but was answered %d %s",
+				what, rep.code, c16Short(rep.body))
 			if tol(v) {
 				cls["listed-finding:"+sig] = true
 				refused++
